@@ -373,7 +373,7 @@ pub fn run(ctx: &Ctx) -> i32 {
             return rep.finish();
         },
     };
-    let n = ctx.scale(500, 8000);
+    let n = ctx.scale(1500, 12000);
     let trees = check::draw(ctx.seed, 0xC11, n, 520);
     let mut cases: Vec<(usize, Case)> = Vec::new();
     for (i, t) in trees.iter().enumerate() {
